@@ -8,13 +8,16 @@ package ctrl
 // What main learns about schema initialisation and retention is what the phase itself
 // returned: an interrupted upgrade or rotation is reported as an error - never as a
 // successful start with scripts skipped or retention not applied.
+// (lastCallError: the error returned by the last call through one of the project's
+// function-typed fields - built-in ghost of the verifier.)
+//@ ghost var lastCallError error
 //@ func Init [C18]
 //@   flag checks=-index,-assert,-panic
-//@   check the-outcome-of-the-upgrade-is-reported: ok ==> result == err
+//@   check the-outcome-of-the-upgrade-is-reported: ok ==> result == lastCallError
 //@   loop 1:
 //@     modifies everything
 //@ func Rotate [C19]
 //@   flag checks=-index,-assert,-panic
-//@   check the-outcome-of-the-rotation-is-reported: ok ==> result == err
+//@   check the-outcome-of-the-rotation-is-reported: ok ==> result == lastCallError
 //@   loop 1:
 //@     modifies everything
